@@ -255,6 +255,44 @@ pub open spec fn argon2_passes(mem: Seq<Seq<u64>>, seg: nat, t: nat, y: nat, n: 
     if n == 0 { mem } else { argon2_pass(argon2_passes(mem, seg, t, y, (n - 1) as nat), seg, t, y, (n - 1) as nat) }
 }
 
+/// memory before the first pass: B[0] = H'^(1024)(H_0 || LE32(0) || LE32(lane 0)), B[1] = H'^(1024)(H_0 || LE32(1) || LE32(0));
+/// the other blocks are not read before they are written in the first pass (see ref_safe); zero here
+pub open spec fn argon2_mem0(h0: Seq<u8>, q: nat) -> Seq<Seq<u64>> {
+    Seq::new(
+        q,
+        |i: int|
+            if i == 0 {
+                words_of_bytes(blake2b_long_spec(1024, h0 + le32(0) + le32(0)))
+            } else if i == 1 {
+                words_of_bytes(blake2b_long_spec(1024, h0 + le32(1) + le32(0)))
+            } else {
+                zero_blk()
+            },
+    )
+}
+
+/// Argon2 (RFC 9106 section 3.2) of type y (1 = Argon2i, 2 = Argon2id), version 0x13, one lane (p = 1), t passes,
+/// m KiB requested (m' = 4 * floor(m / 4) blocks used, H_0 hashes the requested m), tag length taglen:
+/// tag = H'^(taglen)(B[q - 1]) after t passes
+pub open spec fn argon2_spec(y: nat, t: nat, m: nat, taglen: nat, pwd: Seq<u8>, salt: Seq<u8>, key: Seq<u8>, ad: Seq<u8>) -> Seq<u8> {
+    let h0 = argon2_h0_spec(1, taglen, m, t, y, pwd, salt, key, ad);
+    let seg = m / 4;
+    let q = 4 * seg;
+    let mem = argon2_passes(argon2_mem0(h0, q), seg, t, y, t);
+    blake2b_long_spec(taglen, bytes_of_words(mem[q - 1]))
+}
+
+/// the argument ranges of Argon2 accepted by libsodium / dryoc (one lane)
+pub open spec fn argon2_args_ok(t: nat, m: nat, taglen: nat, pwd: Seq<u8>, salt: Seq<u8>, key: Seq<u8>, ad: Seq<u8>) -> bool {
+    &&& 16 <= taglen <= 0xFFFF_FFFF
+    &&& pwd.len() <= 0xFFFF_FFFF
+    &&& 8 <= salt.len() <= 0xFFFF_FFFF
+    &&& key.len() <= 0xFFFF_FFFF
+    &&& ad.len() <= 0xFFFF_FFFF
+    &&& 8 <= m <= 0xFFFF_FFFF
+    &&& 1 <= t <= 0xFFFF_FFFF
+}
+
 pub proof fn lemma_div_mod_seg(slice: nat, seg: nat, index: nat)
     requires
         index < seg,
